@@ -298,6 +298,10 @@ pub trait Property: Sync {
         vec![]
     }
     fn rule(&self) -> String;
+    /// prefix of generated case names (when two harnesses report under one property)
+    fn case_prefix(&self) -> &'static str {
+        ""
+    }
     /// may cases run on several threads at once? (false when a case needs process-global hooks)
     fn parallel(&self) -> bool {
         true
@@ -481,12 +485,12 @@ pub fn run_property<P: Property>(p: &P, cfg: &RunCfg) -> anyhow::Result<RunRepor
         ..Default::default()
     };
     // 1. build the op lists
-    let mut named: Vec<(String, Vec<P::Op>)> = p.corpus();
+    let mut named: Vec<(String, Vec<P::Op>)> = p.corpus().into_iter().map(|(n, o)| (format!("{}{n}", p.case_prefix()), o)).collect();
     report.corpus_cases = named.len();
     let mut master = Rng::new(cfg.seed);
     for i in 0..cfg.cases {
         let mut r = master.fork();
-        named.push((format!("gen{i}"), p.generate(&mut r, i, cfg.thorough)));
+        named.push((format!("{}gen{i}", p.case_prefix()), p.generate(&mut r, i, cfg.thorough)));
     }
     // 2. execute on the implementation, in parallel
     let n = named.len();
@@ -634,6 +638,28 @@ pub fn run_property<P: Property>(p: &P, cfg: &RunCfg) -> anyhow::Result<RunRepor
     }
     report.wall_s = t0.elapsed().as_secs_f64();
     Ok(report)
+}
+
+/// two harnesses reporting under one property: add up
+pub fn merge_reports(mut a: RunReport, b: RunReport) -> RunReport {
+    a.cases_skipped_for_time += b.cases_skipped_for_time;
+    a.evaluations += b.evaluations;
+    a.distinct_nontrivial += b.distinct_nontrivial;
+    a.rule = format!("{} || ACTOR PATH: {}", a.rule, b.rule);
+    for (k, v) in b.features {
+        *a.features.entry(format!("actor:{k}")).or_insert(0) += v;
+    }
+    a.samples.extend(b.samples.into_iter().take(1));
+    a.model_lines_compared += b.model_lines_compared;
+    a.oracle_lines_compared += b.oracle_lines_compared;
+    a.oracle_failures += b.oracle_failures;
+    a.model_disagreements += b.model_disagreements;
+    a.crashes += b.crashes;
+    a.known_findings.extend(b.known_findings);
+    a.violations.extend(b.violations);
+    a.corpus_cases += b.corpus_cases;
+    a.wall_s += b.wall_s;
+    a
 }
 
 /// Replay a stored case file: run its ops again on the implementation and the model.
